@@ -55,6 +55,13 @@ def gen_case(ctx, k):
     option = "gillespie" if k % 2 == 0 else "tauleap"
     nenv = rng.choice([1, 2, 2, 3])
     kind = "grid" if (k // 2) % 2 == 0 else "graph"
+    cls = k % 12
+    if cls in (1, 7):
+        kind, option = "graph", "tauleap"
+    elif cls in (2, 8):
+        kind = "grid"
+    elif cls in (3, 10):
+        kind, option = "grid", "gillespie"
     space, info = stoch_gen.rand_space(rng, kind=kind, nenv=nenv, max_cells=6)
     net = stoch_gen.rand_network(rng, nenv=nenv, max_order=3)
     n = info["n"]
@@ -63,10 +70,9 @@ def gen_case(ctx, k):
     state = [float(rng.choice([0, 0, 1, 2, 3, 5, 8, 13])) for _ in range(ns * n)]
     case = {"net": net, "space": space, "kind": kind, "option": option, "seed": rng.randint(0, 2 ** 31 - 1),
             "dt": 1 / 2048, "tmax": 1e9, "state": state,
-            "max_iter": ctx.n(120, 3000) if option == "gillespie" else ctx.n(12, 120),
+            "max_iter": ctx.n(120, 2500) if option == "gillespie" else ctx.n(12, 120),
             "edge": info["edge"] if kind == "grid" else list(info["edge"])}
-    cls = k % 8
-    if cls in (1, 5) and kind == "graph" and option == "tauleap":
+    if cls in (1, 7) and kind == "graph" and option == "tauleap":
         # low copy numbers, diffusion dominated, many steps: nodes run empty and fill again
         case["net"] = stoch_gen.rand_network(rng, nenv=nenv, max_order=1, nr=rng.choice([0, 0, 1]), chem_p=0.0)
         for sp in case["net"]["species"]:
@@ -76,7 +82,7 @@ def gen_case(ctx, k):
         case["dt"] = 1 / 128
         case["max_iter"] = ctx.n(60, 400)
         case["cls"] = "lowcopy-graph-tauleap"
-    elif cls in (2, 6) and kind == "grid":
+    elif cls in (2, 8) and kind == "grid":
         # boundary conditions that differ between the axes, with at least 3 layers along one of them
         dims = [1, rng.choice([1, 2]), rng.choice([3, 4])]
         rng.shuffle(dims)
@@ -90,7 +96,31 @@ def gen_case(ctx, k):
         case["space"] = sp
         case["state"] = [float(rng.choice([0, 1, 2, 3, 5])) for _ in range(ns * w * h * d)]
         case["cls"] = "grid-mixed-boundaries"
-    if rng.random() < 0.4:
+    if rng.random() < 0.45:
+        # script units system other than the default: the engine works in the script's time unit (and in molecules)
+        case["units"] = {"time": rng.choice(["ms", "min", "s"]), "quantity": rng.choice(["molecule", "molecule", "nmol", "fmol"])}
+    if cls in (3, 10) and case["kind"] == "grid" and option == "gillespie":
+        # process history: an earlier run in the same process on a grid of the SAME shape with the OPPOSITE boundary conditions
+        dims = [1, rng.choice([1, 2]), rng.choice([3, 4])]
+        rng.shuffle(dims)
+        w, h, d = dims
+        first_periodic = rng.random() < 0.5
+        bc1 = {ax: ("periodical" if first_periodic else "reflecting") for ax in "xyz"}
+        bc2 = {ax: ("reflecting" if first_periodic else "periodical") for ax in "xyz"}
+        sp = dict(space)
+        sp.update({"w": w, "h": h, "d": d, "cell_env": [rng.randrange(nenv) for _ in range(w * h * d)], "boundary_conditions": bc2})
+        sp1 = dict(sp)
+        sp1["boundary_conditions"] = bc1
+        for s_ in case["net"]["species"]:
+            s_["D"] = float(rng.choice([1, 2]))
+        nsp = len(case["net"]["species"])
+        case["space"] = sp
+        case["state"] = [float(rng.choice([1, 2, 3, 5])) for _ in range(nsp * w * h * d)]
+        case["before"] = [{"net": case["net"], "space": sp1, "state": case["state"], "seed": 3, "iterations": 3}]
+        case["same_object"] = rng.random() < 0.5
+        case["cls"] = "history-same-shape-other-boundaries"
+        case.pop("chem", None)
+    if rng.random() < 0.4 and not case.get("before"):
         # explicit chemostat map: a species chemostated in some cells only (the flag masks the change, not the propensity)
         nn = len(case["state"]) // len(case["net"]["species"])
         nsp = len(case["net"]["species"])
@@ -104,7 +134,18 @@ def gen_case(ctx, k):
 
 
 def small(case):
-    return {k: case[k] for k in ("net", "space", "kind", "option", "seed", "dt", "tmax", "state", "max_iter", "edge", "chem") if k in case}
+    return {k: case[k] for k in ("net", "space", "kind", "option", "seed", "dt", "tmax", "state", "max_iter", "edge", "chem", "units", "before", "same_object") if k in case}
+
+
+def own_rates(case, arr):
+    """the oracle's rate law: constants and diffusion coefficients read from the network DESCRIPTION (own reading of the
+    environment keys, own unit conversion), geometry / stoichiometry from the marshalled arrays"""
+    k, D = stoch_gen.expected_tables(case["net"], case.get("units"))
+    edge = case["edge"]
+    if case["kind"] == "grid" and (case["space"]["w"], case["space"]["h"], case["space"]["d"]) != \
+            (arr["space"]["w"], arr["space"]["h"], arr["space"]["d"]):
+        edge = None
+    return stoch_gen.Rates(dict(arr, k=k, D=D), edge=edge)
 
 
 def apply_effect(x, eff, n, mult=1):
@@ -227,7 +268,7 @@ def check_tauleap(ctx, case, res, rates, stats):
 
 
 def run(ctx):
-    nscripts = ctx.n(48, 600)
+    nscripts = ctx.n(48, 420)
     cases = [gen_case(ctx, k) for k in range(nscripts)]
     total_model_steps = ctx.n(4000, 90000)
     per_script = max(10, total_model_steps // nscripts)
@@ -238,7 +279,7 @@ def run(ctx):
             ctx.notes.append("time budget reached after %d of %d scripts" % (c0, len(cases)))
             break
         part = cases[c0:c0 + chunk]
-        results = stoch_gen.run_batch("stoch_gen", "child_run", part, kind="shim", timeout=ctx.n(20, 120))
+        results = stoch_gen.run_batch("stoch_gen", "child_run_seq", part, kind="shim", timeout=ctx.n(20, 120))
         ops, meta = [], []
         for ci, (case, res) in enumerate(zip(part, results)):
             if res is None:
@@ -254,8 +295,14 @@ def run(ctx):
                               (res.get("exception") or res.get("crash")), small(case))
                 continue
             arr = res["arr"]
-            rates = stoch_gen.Rates(arr, edge=case["edge"])
+            rates = own_rates(case, arr)
             eng = engine_io.eng_json(arr, edge=case["edge"])
+            if case.get("units"):
+                ctx.count("units_time_" + case["units"]["time"])
+                ctx.count("units_quantity_" + case["units"]["quantity"])
+            if any(isinstance(v, dict) and any("," in kk for kk in v) for r_ in case["net"]["reactions"] for v in (r_.get("k+"), r_.get("k-"))) or \
+                    any(isinstance(sp_.get("D"), dict) and any("," in kk for kk in sp_["D"]) for sp_ in case["net"]["species"]):
+                ctx.count("scripts_with_multi_environment_keys")
             ctx.count("scripts_" + case["option"])
             ctx.count("space_" + case["kind"])
             if case.get("cls"):
@@ -320,7 +367,7 @@ def run(ctx):
                 if o.get("complete"):
                     ctx.disagree("gillespie_step", cse, "engine stepped", "model: a0 = 0")
                     continue
-                if rparse(o["a0"]) != extra:
+                if not close(_fl(rparse(o["a0"])), extra, rel=1e-9):
                     ctx.disagree("gillespie_step", cse, {"oracle_a0": _f(extra)}, {"a0": o["a0"]}, note="model a0 differs from the oracle's CME sum")
                     continue
                 if rparse(o["margin"]) < Fraction(1, 10 ** 9):
@@ -352,8 +399,8 @@ def run(ctx):
 
 def replay(ctx, rec):
     case = rec.get("case", rec)
-    base = {k: case[k] for k in ("net", "space", "kind", "option", "seed", "dt", "tmax", "state", "max_iter", "edge", "chem") if k in case}
-    res = stoch_gen.run_batch("stoch_gen", "child_run", [base], kind="shim", timeout=60)[0]
+    base = {k: case[k] for k in ("net", "space", "kind", "option", "seed", "dt", "tmax", "state", "max_iter", "edge", "chem", "units", "before", "same_object") if k in case}
+    res = stoch_gen.run_batch("stoch_gen", "child_run_seq", [base], kind="shim", timeout=60)[0]
     if res is None or res.get("hang") or "crash" in res or "exception" in res:
         return False, {"case": base, "impl": res}
 
@@ -368,7 +415,7 @@ def replay(ctx, rec):
         def count(self, *a, **k):
             pass
     c = _C()
-    rates = stoch_gen.Rates(res["arr"], edge=base.get("edge"))
+    rates = own_rates(base, res["arr"])
     st = {"steps": 0, "changed": 0}
     if base["option"] == "gillespie":
         check_gillespie(c, base, res, rates, st)
